@@ -494,9 +494,10 @@ func c09Gen(rng *rand.Rand, tier string) []Case {
 			if len(p) > 1 && p[0] == 6 && g.pick(2) == 0 {
 				p = g.mutate(p)
 			}
-			// a well-formed reply naming another address would (legitimately) vote the node out; keep malformed ones
+			// any reply that decodes (even `06 c0`, a nil member) counts as a vote for another address and would
+			// legitimately vote the node out; keep only replies that cannot decode: the bare type byte
 			if len(p) > 0 && p[0] == 6 {
-				p = p[:1+g.pick(min(2, len(p)))]
+				p = p[:1]
 			}
 			op += " " + hexb(p)
 		}
